@@ -676,6 +676,7 @@ func TestProp(t *testing.T) {
 		} else {
 			rec.Case(nt, ev.HashS(c.Kernel, fmt.Sprint(c.Sparse, c.Offset)), "exhaustive:"+c.Class)
 		}
+		pbt.MarkInflight(rec, chk.Name, c) // a kernel that faults kills the process: the driver reports this case
 		if f := eval(c); f != nil {
 			if pbt.Report(t, rec, chk.Name, c, f) {
 				complete = false
